@@ -1,6 +1,5 @@
 """Properties not claimed, each with the measured reason (DESIGN.md section 2)."""
 NOT_APPLICABLE = {
-    "C14": "Fidelity of method/URL/headers/body runs through url::Url::parse, http_types header maps and Display formatting (to_string() is the subject, so fmt cannot be stubbed): input-length-proportional third-party parsers, IDNA/percent-encoding tables; no integer kernel to isolate.",
     "C20": "The CLI registry is computed by a datalog engine (ascent) over a rustdoc-JSON graph of 10^3-10^4 items held in hash maps and strings; invariance under renumbering quantifies over permutations of that graph; nothing loop-free or small-state to encode.",
 }
 # claimed-in-DESIGN but not built yet are listed here until their check exists (kept current by gen_manifest)
